@@ -107,7 +107,7 @@ fn alma_def<T: Dom>(n: usize, k: usize, sigma: f64, offset: f64) {
 }
 
 pub fn units(tier: Tier, _seed: u64) -> Vec<Unit> {
-    let ns: Vec<usize> = if tier == Tier::Quick { vec![1, 2, 3] } else { vec![1, 2, 3, 4, 5, 6] };
+    let ns: Vec<usize> = if tier == Tier::Quick { vec![1, 2, 3, 4, 5, 7, 8, 13, 16] } else { vec![1, 2, 3, 4, 5, 6, 7, 8, 9, 10, 12, 13, 16, 20, 32] };
     let mut u = vec![];
     for &n in &ns {
         let k = 2 * n + 2;
@@ -131,7 +131,7 @@ pub fn units(tier: Tier, _seed: u64) -> Vec<Unit> {
 pub fn meta() -> Meta {
     Meta {
         functions: vec!["Sma::{new,update,last}", "Ema::{new,with_alpha,update,last}", "Alma::{new,new_custom,update,last}", "Echo::{update,last}"],
-        bounds: "N in {1,2,3} (quick) / {1..6} (thorough); k = 2N+2 (3N+1 for Alma); inputs unconstrained reals (|x|<=1 for the Alma kernel obligation); a>0, b, c and the monotone increments d>=0 are solver variables; Ema alpha = 2 and symbolic alpha in [0,N+1] (N<=2 quick, N<=3 thorough); Alma (sigma,offset) in {(6,.85),(3,.5),(9,1),(1.5,.1)}; every comparison outcome explored (Ema's state==0 test is a branch)",
+        bounds: "N in {1,2,3,4,5,7,8,13,16} (quick) / {1..10,12,13,16,20,32} (thorough) — these views do not branch on values, so every N is a single path; k = 2N+2 (3N+1 for Alma); inputs unconstrained reals (|x|<=1 for the Alma kernel obligation); a>0, b, c and the monotone increments d>=0 are solver variables; Ema alpha = 2 and symbolic alpha in [0,N+1] (N<=2 quick, N<=3 thorough); Alma (sigma,offset) in {(6,.85),(3,.5),(9,1),(1.5,.1)}; every comparison outcome explored (Ema's state==0 test is a branch)",
         outside: vec!["N > 6, longer streams", "arbitrary real sigma/offset (four concrete pairs are checked)", "f64 rounding"],
         assumptions: vec!["Alma weights: exp() of a concrete argument is evaluated by the platform libm; the oracle computes its own weights in plain f64 and the comparison allows 1e-9"],
     }
